@@ -110,7 +110,7 @@ def run(ctx):
 def replay(ctx, rep):
     if "sched" in rep["case"]:
         raise MachineryError("scheduling configurations are re-enumerated by every run")
-    sc.replay_case(ctx, rep, CLAUSES | {"OthersNotStarved"})
+    sc.replay_case(ctx, rep, CLAUSES | {"OthersNotStarved"}, extra_sig=xsig)
 
 
 if __name__ == "__main__":
